@@ -139,6 +139,15 @@ theorem wait_is_unassign_condwait_assign :
 /-! ## The deadline of `Condition::waitForSeconds` -/
 open Gen.ThreadSkel (Timespec waitForSecondsDeadline kNanoSecondsPerSecond)
 
+/-- the clock the deadline is measured on is the clock the condition variable waits on: `waitForSeconds` reads clock 0
+(`CLOCK_REALTIME`) and `Condition`'s constructor initialises `pcond_` with NULL attributes, for which
+`pthread_cond_timedwait` measures `abstime` against `CLOCK_REALTIME` (POSIX).  Reading `CLOCK_MONOTONIC` without a
+`pthread_condattr_setclock` would make every timed wait expire at once. -/
+theorem wait_clock_is_cond_clock :
+    Gen.ThreadSkel.waitClockId = 0 ∧
+    acts Gen.ThreadSkel.condCtor = [.store "mutex_" "mutex", .mcheck "pthread_cond_init" "&pcond_, NULL"] := by
+  rw [skeleton_condCtor]; decide
+
 /-- the translated constant is 10^9 -/
 theorem kNanoSecondsPerSecond_eq : kNanoSecondsPerSecond = 1000000000 := by decide
 
